@@ -601,3 +601,152 @@ impl Batch {
         })
     }
 }
+
+// ---------------------------------------------------------------------------
+// grid phase: the small finite dimensions are enumerated completely on every run
+// (every family x every linked build variant x every role x construction routes up to depth 3 x
+//  both detection arms x every call shape x batch-length classes x placement classes); keys and
+// block contents stay sampled. Executed through the same World and oracles as the seeded runs.
+
+pub struct GridCase {
+    pub cfg: RunCfg,
+    pub ops: Vec<Op>,
+    pub label: String,
+}
+
+fn grid_calls(rng: &mut Prng, ops: &mut Vec<Op>, id: u32, role: crate::registry::Role, bs: usize, pars: &[usize], full: bool) {
+    use crate::registry::{Dir, SHAPES};
+    let dirs: Vec<Dir> = [Dir::Enc, Dir::Dec].into_iter().filter(|d| role.can(*d)).collect();
+    let mut ns: Vec<usize> = vec![0, 1, 2];
+    for &p in pars {
+        for n in [p.saturating_sub(1), p, p + 1, 2 * p + 1] {
+            if !ns.contains(&n) {
+                ns.push(n);
+            }
+        }
+    }
+    let maxn = (crate::workload::REGION - 64) / 2 / bs;
+    ns.retain(|&n| n <= maxn.max(1));
+    for &dir in &dirs {
+        for shape in SHAPES {
+            let shape_ns: Vec<usize> = if shape.single() { vec![1] } else if full { ns.clone() } else { vec![*rng.pick(&ns), *rng.pick(&ns)] };
+            for n in shape_ns {
+                let len = n * bs;
+                // placement classes: in place (aligned / offset), disjoint out above / below, touching, at the arena end
+                let mut places: Vec<(usize, usize)> = Vec::new();
+                let off = rng.below(16) as usize;
+                if !shape.disjoint_only() {
+                    places.push((64 + off, 64 + off));
+                    places.push((crate::mem::ARENA_BYTES - len, crate::mem::ARENA_BYTES - len));
+                }
+                if !shape.in_place_only() && len > 0 {
+                    let o2 = rng.below(16) as usize;
+                    places.push((128 + off, 128 + off + len + o2)); // out above, small gap
+                    places.push((128 + off + len, 128 + off)); // out below, touching
+                    places.push((crate::mem::ARENA_BYTES - 2 * len - 1, crate::mem::ARENA_BYTES - len)); // out at the arena end
+                }
+                for (i, o) in places {
+                    ops.push(Op::Call { id, task: 0, dir, shape, n: n as u32, in_off: i as u32, out_off: o as u32, data: rng.bytes(len) });
+                }
+            }
+        }
+    }
+}
+
+pub fn grid_cases(reg: &Registry, prop: Prop, seed: u64) -> Vec<GridCase> {
+    use crate::registry::Role;
+    let mut rng = Prng::new(seed ^ 0x6121D);
+    let mut out = Vec::new();
+    for (f, fam) in reg.families.iter().enumerate() {
+        let all: Vec<usize> = (0..fam.variants.len()).collect();
+        let any_detect = all.iter().any(|&v| reg.types[fam.variants[v].both].detect);
+        // parallel widths are properties of the backends; the generator needs them only to pick batch lengths
+        let pars: Vec<usize> = match fam.name {
+            n if n.starts_with("aes") => vec![2, 4, 9],
+            "kuznyechik" => vec![3, 4],
+            _ => vec![1],
+        };
+        for mask in if any_detect { vec![false, true] } else { vec![false] } {
+            let mut variants = std::collections::BTreeMap::new();
+            variants.insert(f, all.clone());
+            let cfg = RunCfg { variants, mask, tasks: 1 };
+            for &klen in fam.key_lens.iter() {
+                if prop != Prop::C03 && klen != fam.key_lens[0] && klen != *fam.key_lens.last().unwrap() {
+                    continue;
+                }
+                let key = rng.bytes(klen);
+                let mut ops: Vec<Op> = Vec::new();
+                let mut id = 0u32;
+                let mut fresh = |ops: &mut Vec<Op>, role: Role, fixed: bool| -> u32 {
+                    id += 1;
+                    ops.push(Op::New { id, task: 0, fam: f, role, key: key.clone(), fixed });
+                    id
+                };
+                match prop {
+                    Prop::C12 => {
+                        // every construction route up to depth 3, with and without the source dropped first
+                        let roles: Vec<Role> = if fam.split { vec![Role::Both, Role::Enc, Role::Dec] } else { vec![Role::Both] };
+                        for role in roles {
+                            for fixed in [false, true] {
+                                if fixed && klen != fam.key_size {
+                                    continue;
+                                }
+                                let a = fresh(&mut ops, role, fixed);
+                                grid_calls(&mut rng, &mut ops, a, role, fam.block, &pars, false);
+                                // clone, clone of clone
+                                let (c1, c2) = (a + 1000, a + 2000);
+                                ops.push(Op::Clone { id: c1, task: 0, src: a });
+                                ops.push(Op::Clone { id: c2, task: 0, src: c1 });
+                                ops.push(Op::Drop { id: c1, task: 0 });
+                                grid_calls(&mut rng, &mut ops, c2, role, fam.block, &pars, false);
+                                if role == Role::Enc {
+                                    let mut k = 3000;
+                                    for to in [Role::Both, Role::Dec] {
+                                        for by_ref in [true, false] {
+                                            for drop_src in [false, true] {
+                                                // conversion from a clone of the source (so the source survives by-value conversions)
+                                                let (s, d, dc) = (a + k, a + k + 1, a + k + 2);
+                                                k += 10;
+                                                ops.push(Op::Clone { id: s, task: 0, src: a });
+                                                ops.push(Op::Conv { id: d, task: 0, src: s, to, by_ref });
+                                                if by_ref && drop_src {
+                                                    ops.push(Op::Drop { id: s, task: 0 });
+                                                }
+                                                ops.push(Op::Relocate { id: d, task: 0, off: 3 });
+                                                grid_calls(&mut rng, &mut ops, d, to, fam.block, &pars, false);
+                                                // clone of converted, source of the clone dropped
+                                                ops.push(Op::Clone { id: dc, task: 0, src: d });
+                                                ops.push(Op::Drop { id: d, task: 0 });
+                                                grid_calls(&mut rng, &mut ops, dc, to, fam.block, &pars, false);
+                                                ops.push(Op::Drop { id: dc, task: 0 });
+                                                if by_ref && !drop_src {
+                                                    ops.push(Op::Drop { id: s, task: 0 });
+                                                }
+                                            }
+                                        }
+                                    }
+                                }
+                                ops.push(Op::Drop { id: c2, task: 0 });
+                                ops.push(Op::Drop { id: a, task: 0 });
+                            }
+                        }
+                    }
+                    _ => {
+                        let roles: Vec<Role> = if fam.split { vec![Role::Both, Role::Enc, Role::Dec] } else { vec![Role::Both] };
+                        for role in roles {
+                            let a = fresh(&mut ops, role, false);
+                            grid_calls(&mut rng, &mut ops, a, role, fam.block, &pars, prop == Prop::C04);
+                            if prop == Prop::C15 {
+                                ops.push(Op::Relocate { id: a, task: 0, off: 5 });
+                                grid_calls(&mut rng, &mut ops, a, role, fam.block, &pars, false);
+                            }
+                            ops.push(Op::Drop { id: a, task: 0 });
+                        }
+                    }
+                }
+                out.push(GridCase { cfg: cfg.clone(), ops, label: format!("{} mask_aes={} klen={}", fam.name, mask, klen) });
+            }
+        }
+    }
+    out
+}
